@@ -51,6 +51,8 @@ var c18Pre = map[string]string{
 	"interpolation":             "$arr = [\"k\" => \"v\"];\necho \"a {$arr['k']} b {$v0}s $v0\", \"\\n\";\n",
 	"crlf":                      "$c1 = 1;\r\n$c2 = \"two\";\r\n$c3 = $c1 + 2;\r\n",
 	"inline-html":               "?>\n<b>\u00e9 text</b>\n<p>line</p>\n<?php\n",
+	// fully qualified names, also ones whose first segment is a reserved word (the lexer merges \kw\Name into one identifier)
+	"qualified-names": "$q1 = \\strlen(\"ab\");\nif ($v0 > 99) { $q2 = new \\array\\Bag(); $q3 = \\match\\Kind::A; $q4 = \\static\\Registry::get(); $q6 = \\Some\\Deep\\name(1); }\n$q5 = \\strtoupper(\"x\");\n",
 }
 
 var c18Fault = map[string]string{
@@ -59,6 +61,10 @@ var c18Fault = map[string]string{
 	"uncaught-throw":     "throw new Exception(\"boom\")",
 	"caught-getLine":     "try { throw new Exception(\"x\"); } catch (\\Throwable $e) { echo \"LINE=\", $e->getLine(), \"\\n\"; }",
 	"undefined-method":   "(new Exception(\"m\"))->nope()",
+	// constructs written over two lines: the fault is on the second
+	"undefined-method-trailing-arrow":      "(new Exception(\"m\"))->\n    nope()",
+	"undefined-method-leading-arrow":       "(new Exception(\"m\"))\n    ->nope()",
+	"undefined-function-in-multiline-call": "strlen(\"ok\" .\n    undefined_fn_c18(2))",
 }
 
 func c18Plain(i int) string {
